@@ -173,6 +173,44 @@ theorem binary_header_roundtrip (b : Bytes) :
     decodeBinaryHeader (encodeBinaryHeader b) = some b ∧ decodeBinaryHeader (b64EncodeStd b) = some b :=
   ⟨C18.binary_header_roundtrip b, C18.binary_header_roundtrip_padded b⟩
 
+/-! ### response trailers and repeated `Receive` (fix F24) -/
+
+/-- `setHeaders` stores, per key of `from`, exactly `from`'s values; other keys are untouched -/
+theorem vals_setHeaders (a b : Header) (hb : b.wf) (k : Bytes) :
+    (setHeaders a b).vals k = if k ∈ b.map (·.1) then b.vals k else a.vals k := by
+  induction b generalizing a with
+  | nil => simp [setHeaders, Header.vals]
+  | cons p rest ih =>
+    obtain ⟨k₁, v₁⟩ := p
+    simp only [Header.wf, List.map_cons, List.nodup_cons] at hb
+    simp only [setHeaders, List.foldl_cons]
+    have := ih (a.put k₁ v₁) hb.2
+    simp only [setHeaders] at this
+    rw [this]
+    by_cases hk : k = k₁
+    · subst hk
+      have hnot : k ∉ rest.map (·.1) := hb.1
+      simp [hnot, Header.vals, Header.vals_put]
+    · by_cases hin : k ∈ rest.map (·.1)
+      · simp [hin, hk, Header.vals]
+      · simp [hin, hk, Header.vals, Header.vals_put]
+
+/-- **trailers_stable_under_repeated_receive**: however often a failing `Receive` re-reads the
+    trailer block `t` of a finished stream, the client's view of every key is what it was after
+    the first time — the handler's values, each once. -/
+theorem trailers_stable_under_repeated_receive (view t : Header) (ht : t.wf) (n : Nat) (k : Bytes) :
+    (Nat.repeat (fun v => setHeaders v t) (n + 1) view).vals k = (setHeaders view t).vals k := by
+  induction n with
+  | zero => rfl
+  | succ m ih =>
+    show (setHeaders (Nat.repeat (fun v => setHeaders v t) (m + 1) view) t).vals k = _
+    rw [vals_setHeaders _ _ ht, vals_setHeaders _ _ ht, ih, vals_setHeaders _ _ ht]
+    by_cases hin : k ∈ t.map (·.1) <;> simp [hin]
+
+/-- **History, F24**: with `mergeHeaders` a second failing `Receive` doubled every value -/
+theorem trailers_doubled_on_pinned :
+    (mergeHeaders (mergeHeaders [] [([88], [[116]])]) [([88], [[116]])]).vals [88] = [[116], [116]] := by decide
+
 /-! ### unary Connect: trailers travel as `Trailer-`-prefixed headers -/
 
 /-- in every branch the unary Connect client exposes the split of the response headers -/
@@ -181,7 +219,7 @@ theorem clientConnectUnary_views (cfg : CCfg) (st : Bytes) (r : Resp) :
     (clientConnectUnary cfg st r).trailer = (splitTrailerPrefixed r.header).2 := by
   simp only [clientConnectUnary]
   split
-  · exact ⟨rfl, rfl⟩
+  · split <;> exact ⟨rfl, rfl⟩
   · split
     · split
       · exact ⟨rfl, rfl⟩
